@@ -133,12 +133,6 @@ def Num.truncInt : Num → Int
   | .frac _ t _ => t
   | _ => 0
 
-/-- `Math.ceil(x)` for finite x as an integer (`none` for NaN/±Infinity) -/
-def Num.ceilInt : Num → Option Int
-  | .int n => some n
-  | .negZero => some 0
-  | .frac _ t neg => some (if neg then t else t + 1)
-  | _ => none
 
 /-- IEEE-754 double rounding (round to nearest, ties to even) of a natural number -/
 def roundNat (n : Nat) : Nat :=
@@ -157,18 +151,19 @@ def roundInt (n : Int) : Int := if n < 0 then - (roundNat n.natAbs : Int) else (
     once to a double. -/
 def flatten64 (hi : Int) (lo : Nat) : Int := roundInt (hi * 4294967296 + (lo : Int))
 
-/-- types.js:104-120 — `new $Int64(0, low)` / `new $Uint64(0, low)`:
-    `$high = (0 + Math.floor(Math.ceil(low) / 4294967296)) >> 0` (`>>> 0` for uint64), `$low = low >>> 0`. -/
+/-- types.js:103-118 — `new $Int64(0, low)` / `new $Uint64(0, low)`:
+    `$high = (0 + Math.floor(Math.trunc(low) / 4294967296)) >> 0` (`>>> 0` for uint64), `$low = low >>> 0`.
+    (NaN / ±Infinity: `NaN >> 0 = 0`, which is what `truncInt = 0` yields as well.) -/
 def mk64 (signed : Bool) (x : Num) : GoVal :=
-  let hi : Int := match x.ceilInt with
-    | some c => if signed then wrapS 32 (c / 4294967296) else wrapU 32 (c / 4294967296)
-    | none => 0
-  .i64 hi (wrapU 32 x.truncInt).toNat
+  let c := x.truncInt
+  let hi : Int := if signed then wrapS 32 (c / 4294967296) else wrapU 32 (c / 4294967296)
+  .i64 hi (wrapU 32 c).toNat
 
 /-- the fix-up applied to `parseInt(v)` per kind (jsmapping.js:215-231) -/
 def fixInt (k : IK) (x : Num) : Num :=
   match k with
-  | .int | .uint => x                              -- `return parseInt(v);` — no truncation
+  | .int => .int (wrapS 32 x.truncInt)             -- `>> 0`
+  | .uint => .int (wrapU 32 x.truncInt)            -- `>>> 0`
   | .i8 => .int (wrapS 8 x.truncInt)               -- `<< 24 >> 24`
   | .i16 => .int (wrapS 16 x.truncInt)             -- `<< 16 >> 16`
   | .i32 => .int (wrapS 32 x.truncInt)             -- `>> 0`
@@ -287,12 +282,12 @@ def parseIntJs : JsVal → R Num
   | .obj _ _ => .ok .nan                         -- "[object Object]"
   | _ => .error .unmodelled
 
-/-- `parseFloat(x)` for a number x = `parseFloat(String(x))`: the identity except that `String(-0)` is "0" -/
+/-- `$parseFloat(x)` for a number x (numeric.js:4-9): `f.constructor === Number` → returned unchanged (so `-0` stays `-0`) -/
 def parseFloatNum : Num → Num
-  | .negZero => .int 0
   | x => x
 
-/-- `parseFloat(v)` (jsmapping.js:237); strings: optionally signed decimal integers only -/
+/-- `$parseFloat(v)` (jsmapping.js:237; numeric.js:4-9 — numbers pass through, everything else goes to `parseFloat`);
+    strings: optionally signed decimal integers only -/
 def parseFloatJs : JsVal → R Num
   | .num x => .ok (parseFloatNum x)
   | .undef | .null | .bool _ => .ok .nan
@@ -584,18 +579,19 @@ def internalize (τ : Ty) (j : JsVal) : R GoVal :=
     match j with
     | .wrapper id => .ok (.opaque id)
     | .undef | .null => .error .cannotInternalize
-    -- `$mapArray` keeps the class of the JavaScript array it is given, so a Go array internalized from an array of
-    -- another class than `$nativeArray(elem.kind)` has a foreign backing store; `GoVal.arr` does not record that: unmodelled
+    -- `$toNativeArray(t.elem.kind, $mapArray(v, …))`: the elements are written into an array of v's class and then
+    -- converted to the backing class of the Go array
     | .arr es =>
       if es.length ≠ n then .error .wrongSize
-      else if (nativeTA e).isSome then .error .unmodelled
-      else do let gs ← es.mapM (internalize e); .ok (.arr gs)
+      else do
+        let gs ← es.mapM (internalize e)
+        let gs ← storeElems none (nativeTA e) gs
+        .ok (.arr gs)
     | .typed c xs =>
       if xs.length ≠ n then .error .wrongSize
-      else if nativeTA e ≠ some c then .error .unmodelled
       else do
         let gs ← xs.mapM (fun x => internalize e (.num x))
-        let gs ← storeElems (some c) (some c) gs
+        let gs ← storeElems (some c) (nativeTA e) gs
         .ok (.arr gs)
     | .str u => if u.length ≠ n then .error .wrongSize else .error .unmodelled
     | _ => .error .wrongSize                             -- `v.length` is undefined
@@ -606,7 +602,8 @@ def internalize (τ : Ty) (j : JsVal) : R GoVal :=
     | .obj ks vs => do
       let gs ← vs.mapM (internalize e)
       .ok (goMapOfPairs ((ks.map internalizeString).zip gs))
-    | .undef | .null | .bool _ | .num _ | .jsfun _ | .gofun _ => .ok (.map [] [])   -- `$keys` yields []
+    | .undef | .null => .ok .nil                         -- `v == null` → `t.zero()`, the nil map
+    | .bool _ | .num _ | .jsfun _ | .gofun _ => .ok (.map [] [])   -- `$keys` yields []
     | .str u => if u.isEmpty then .ok (.map [] []) else .error .unmodelled
     | _ => .error .unmodelled
   | .ptr e =>                                            -- :332-335, falls through to the slice case
